@@ -30,7 +30,11 @@ Inductive case :=
 | CCons (o : opts) (d : dest) (text : bytes) (pt : ptab) (rt : rtab)
         (obs : outcome) (untouched : bool) (rep : reparse)
 | CProd (o : opts) (s : source) (pt : ptab) (rt : rtab) (obs : outcome) (rep : reparse)
-| CPair (a b : case).
+| CPair (a b : case)
+(* ONE consumer value and ONE producer value, built once with the options every call of the list carries, used for all
+   the calls. imm = every call as observed right after it returned; fin = the same calls with every destination
+   (record table, *[]byte, *string, sinks) re-read after the LAST call of the history returned *)
+| CHist (imm fin : list case).
 
 Fixpoint check_case (c : case) : N :=
   match c with
@@ -45,4 +49,7 @@ Fixpoint check_case (c : case) : N :=
     verdict (outcome_eqb (produce parse render o s) obs)
             (produce_ok parse render o s obs rep)
   | CPair a b => N.lor (check_case a) (check_case b)
+  | CHist imm fin =>
+    N.lor ((fix go (l : list case) : N := match l with [] => 0%N | a :: r => N.lor (check_case a) (go r) end) imm)
+          ((fix go (l : list case) : N := match l with [] => 0%N | a :: r => N.lor (check_case a) (go r) end) fin)
   end.
